@@ -67,6 +67,7 @@ type Frame struct {
 }
 
 type Exec struct {
+	bbFresh    map[string]bool
 	curBVars   []*Term // bound variables of the quantifier bodies being evaluated (for assumeQ)
 	shared     map[string]bool
 	sharedAt   map[*Object][][]int // shared fields havocked at a lock acquisition (exempt from the frame)
